@@ -7,6 +7,7 @@ import (
 	"sort"
 	"strings"
 
+	"github.com/pokt-network/pocket-core/codec"
 	sdk "github.com/pokt-network/pocket-core/types"
 	appsTypes "github.com/pokt-network/pocket-core/x/apps/types"
 	nodesTypes "github.com/pokt-network/pocket-core/x/nodes/types"
@@ -336,6 +337,38 @@ func init() {
 				"maxrelays": a.MaxRelays.String(), "pubkey": roleOfPub(a.PublicKey.RawBytes()), "address": roleOf(a.Address), "unstaking": fmt.Sprint(a.UnstakingCompletionTime.Unix())}
 		}
 		res.Obs["blocktime"] = fmt.Sprint(r.time.Unix())
+		_, _, _, gk, _ := r.app.VerifKeepers()
+		res.Obs["params"] = gk.GetAllParamNameValue(ctx)
+		up := gk.GetUpgrade(ctx)
+		var gm []string
+		for k, v := range codec.UpgradeFeatureMap {
+			gm = append(gm, fmt.Sprintf("%s:%d", k, v))
+		}
+		sort.Strings(gm)
+		res.Obs["upgrade"] = map[string]string{"height": fmt.Sprint(up.Height), "version": up.Version, "old_height": fmt.Sprint(up.OldUpgradeHeight), "features": strings.Join(up.Features, ","),
+			"global_feature_map": strings.Join(gm, ","), "global_upgrade_height": fmt.Sprint(codec.UpgradeHeight), "global_old_upgrade_height": fmt.Sprint(codec.OldUpgradeHeight)}
 		res.Obs["apps"] = appsM
+	}
+}
+
+func init() {
+	// exportjson: the application state exported at the final height (C43 phase 1)
+	chainInvariants["exportjson"] = func(r *replica, res *JobResult) {
+		bz, err := r.app.ExportAppState(r.height, false, nil)
+		if err != nil {
+			res.viol("export/error", fmt.Sprintf("ExportAppState(%d) failed: %v", r.height, err))
+			return
+		}
+		res.Obs["export"] = string(bz)
+	}
+	// claims: pending claims (observation)
+	chainInvariants["claims"] = func(r *replica, res *JobResult) {
+		_, _, _, _, pk := r.app.VerifKeepers()
+		var out []string
+		for _, c := range pk.GetAllClaims(r.ctxNow()) {
+			out = append(out, fmt.Sprintf("%s/%s/%d/%s/%d/%x/exp%d", roleOf(c.FromAddress), c.SessionHeader.Chain, c.SessionHeader.SessionBlockHeight, c.SessionHeader.ApplicationPubKey[:8], c.TotalProofs, c.MerkleRoot.Hash, c.ExpirationHeight))
+		}
+		sort.Strings(out)
+		res.Obs["claims"] = out
 	}
 }
